@@ -1,8 +1,10 @@
 #!/bin/sh
 # usage: tools/seed_sweep.sh [seed dirs...]   -- runs each seeded change's property check against a scratch worktree with the patch applied
-# (never touches /repo). Output: one line per seed: <seed> exit=<code> <VIOLATION lines count> ; logs in /tmp/wt/sweep/<seed>.log
+# (never touches /repo). Output: one line per seed: <seed> exit=<code> <VIOLATION lines count> ; logs in $SW/<seed>.log
+HERE="$(cd "$(dirname "$0")/.." && pwd)"
 WT=/tmp/wt/sweeptree_$$
-mkdir -p /tmp/wt/sweep
+SW=${SWEEP_OUT:-/tmp/wt/sweep}
+mkdir -p $SW
 git -C /repo worktree remove --force $WT 2>/dev/null
 git -C /repo worktree add -f $WT HEAD >/dev/null 2>&1
 cp /repo/ethosu/*.so $WT/ethosu/ 2>/dev/null
@@ -13,10 +15,10 @@ for d in "$@"; do
   git -C $WT checkout -q -- . 
   if ! git -C $WT apply $d/patch.diff 2>/dev/null; then echo "$name: patch does not apply to HEAD"; continue; fi
   s=$(date +%s)
-  ( cd /verif && VERIF_REPO=$WT VERIF_OUT_DIR=/tmp/wt/sweep/out_$name ./check $pid --tier quick ) > /tmp/wt/sweep/$name.log 2>&1
+  ( cd "$HERE" && VERIF_REPO=$WT VERIF_OUT_DIR=$SW/out_$name ./check $pid --tier quick ) > $SW/$name.log 2>&1
   code=$?
-  nv=$(grep -c "^VIOLATION property=$pid replay" /tmp/wt/sweep/$name.log)
-  nc=$(grep "^VIOLATION property=$pid replay" /tmp/wt/sweep/$name.log | grep -vc "no-failing-input-found")
+  nv=$(grep -c "^VIOLATION property=$pid replay" $SW/$name.log)
+  nc=$(grep "^VIOLATION property=$pid replay" $SW/$name.log | grep -vc "no-failing-input-found")
   echo "$name exit=$code violations=$nv with_input=$nc $(( $(date +%s)-s ))s"
 done
 git -C /repo worktree remove --force $WT
